@@ -140,7 +140,16 @@ func treeMutate(r *vh.RNG, b []byte) ([]byte, bool) {
 		case 7:
 			*p = []interface{}{x} // wrapped in a list
 		case 8:
-			*p = r.Bytes(9) // too wide for uint64
+			switch r.Intn(4) {
+			case 0:
+				*p = r.Bytes(9) // too wide for uint64
+			case 1: // sizes whose low byte is small: 256*k + r (width checks done on a truncated size)
+				*p = bytes.Repeat([]byte{0x01}, []int{256, 257, 258, 264, 512, 513}[r.Intn(6)])
+			case 2:
+				*p = append([]byte{0x01}, make([]byte, []int{255, 256, 263, 511}[r.Intn(4)])...)
+			default:
+				*p = make([]byte, []int{256, 257, 264}[r.Intn(3)]) // all zero
+			}
 		default:
 			*p = []byte{0x01}
 		}
@@ -174,6 +183,57 @@ func treeMutate(r *vh.RNG, b []byte) ([]byte, bool) {
 	}
 	out, err := rlp.EncodeToBytes(tree)
 	return out, err == nil
+}
+
+// leafCandidates: boundary strings substituted systematically for every leaf
+var leafCandidates = func() [][]byte {
+	rep := func(b byte, n int) []byte { return bytes.Repeat([]byte{b}, n) }
+	return [][]byte{{}, {0x00}, {0x01}, {0x02}, {0x7f}, {0x80}, {0x00, 0x01}, rep(0xff, 8), rep(0xff, 9), rep(0x01, 19), rep(0x01, 20), rep(0x01, 21),
+		rep(0x01, 31), rep(0x01, 32), rep(0x01, 33), rep(0x01, 55), rep(0x01, 56), rep(0x01, 255), rep(0x01, 256), rep(0x01, 257), rep(0x01, 264), rep(0x00, 256), rep(0x01, 512)}
+}()
+
+// treeMutateAll enumerates, for every string leaf of the value encoded by b, every
+// boundary candidate (and the two kind flips), re-encoded canonically.
+func treeMutateAll(b []byte, maxLeaves int) [][]byte {
+	var tree interface{}
+	if err := rlp.DecodeBytes(b, &tree); err != nil {
+		return nil
+	}
+	var leaves []*interface{}
+	var walk func(p *interface{})
+	walk = func(p *interface{}) {
+		if l, ok := (*p).([]interface{}); ok {
+			for i := range l {
+				walk(&l[i])
+			}
+			return
+		}
+		leaves = append(leaves, p)
+	}
+	walk(&tree)
+	var out [][]byte
+	for i, p := range leaves {
+		if i >= maxLeaves {
+			break
+		}
+		orig := *p
+		for _, c := range leafCandidates {
+			*p = c
+			if e, err := rlp.EncodeToBytes(tree); err == nil {
+				out = append(out, e)
+			}
+		}
+		*p = []interface{}{}
+		if e, err := rlp.EncodeToBytes(tree); err == nil {
+			out = append(out, e)
+		}
+		*p = []interface{}{orig}
+		if e, err := rlp.EncodeToBytes(tree); err == nil {
+			out = append(out, e)
+		}
+		*p = orig
+	}
+	return out
 }
 
 // typed: decode b into the public Go type and re-encode; compare with the model's
@@ -486,6 +546,11 @@ func main() {
 			typedCheck(c, m, e, "valid", enc, true)
 			if i == 0 {
 				c.Sample(map[string]string{"type": e.Name, "encoding": vh.Hex(enc)})
+			}
+			if i < c.Scale(2, 20) {
+				for _, mut := range treeMutateAll(enc, 40) {
+					typedCheck(c, m, e, "leaf-sweep", mut, false)
+				}
 			}
 			for k := 0; k < 24; k++ {
 				if mut, ok := treeMutate(c.Rng, enc); ok {
